@@ -35,33 +35,43 @@ Proof.
 Qed.
 
 Lemma reseated_sound s s' : reseated s s' = true ->
-  exists p pt, nth_error (ptrs s) p = Some pt /\ pcc pt = true /\ nth_error (ptrs s') p <> Some pt.
+  exists p pt pt', nth_error (ptrs s) p = Some pt /\ pcc pt = true /\ nth_error (ptrs s') p = Some pt' /\ ptgt pt' <> ptgt pt.
 Proof.
   unfold reseated. rewrite existsb_exists. intros ([a b] & Hin & Hc). cbn in Hc.
   destruct (In_zip_nth _ _ _ _ Hin) as (p & Ha & Hb). apply andb_true_iff in Hc as [Hcc Hne].
-  exists p, a. repeat split; auto. rewrite Hb. intros [= ->].
-  destruct (tgt_eqb (ptgt a) (ptgt a)) eqn:E; [discriminate|].
-  clear -E. destruct (ptgt a) as [[o|o k]|]; cbn in E; rewrite ?Nat.eqb_refl in E; discriminate.
+  exists p, a, b. repeat split; auto. intros E. rewrite E in Hne.
+  destruct (tgt_eqb (ptgt a) (ptgt a)) eqn:E'; [discriminate|].
+  clear -E'. destruct (ptgt a) as [[o|o k]|]; cbn in E'; rewrite ?Nat.eqb_refl in E'; discriminate.
 Qed.
 
+(* a script breaks the property when, started in a state that respects the discipline, it changes a protected slot,
+   re-seats a const pointer, or carries out a store through a const view / a handle derived from something const *)
 Definition broken (pol : policy) (s : state) (ops : list op) : Prop :=
-  Inv s /\
+  Inv s /\ gbad s = false /\
   ((exists o k ob, nth_error (objs s) o = Some ob /\ slot_prot ob k = true /\
                    read_slot (fst (run pol s ops)) o k <> read_slot s o k) \/
-   (exists p pt, nth_error (ptrs s) p = Some pt /\ pcc pt = true /\ nth_error (ptrs (fst (run pol s ops))) p <> Some pt)).
+   (exists p pt pt', nth_error (ptrs s) p = Some pt /\ pcc pt = true /\
+                     nth_error (ptrs (fst (run pol s ops))) p = Some pt' /\ ptgt pt' <> ptgt pt) \/
+   gbad (fst (run pol s ops)) = true).
 
 Lemma breaks_sound pol c : breaks pol c = true -> broken pol (fst c) (snd c).
 Proof.
-  unfold breaks. intros H. apply andb_true_iff in H as [Hi H]. split; [apply inv_b_sound; exact Hi|].
-  apply orb_true_iff in H as [H|H]; [left; apply const_changed_sound|right; apply reseated_sound]; exact H.
+  unfold breaks. intros H. apply andb_true_iff in H as [Hi H]. apply andb_true_iff in Hi as [Hi Hg].
+  split; [apply inv_b_sound; exact Hi|]. split; [destruct (gbad (fst c)); [discriminate|reflexivity]|].
+  apply orb_true_iff in H as [H|H]; [apply orb_true_iff in H as [H|H]|].
+  - left; apply const_changed_sound; exact H.
+  - right; left; apply reseated_sound; exact H.
+  - right; right; exact H.
 Qed.
 
 (* under a policy that makes every test nothing is ever broken *)
 Lemma spec_never_broken pol s ops : all_checked pol -> ~ broken pol s ops.
 Proof.
-  intros Ha (HI & [(o & k & ob & Ho & Hp & Hne)|(p & pt & Hp & Hc & Hne)]).
+  intros Ha (HI & Hg & [(o & k & ob & Ho & Hp & Hne)|[(p & pt & pt' & Hp & Hc & Hp' & Hne)|Hb]]).
   - apply Hne. unfold run. eapply const_slots_immutable_l; eauto.
-  - apply Hne. unfold run. eapply const_ptr_not_reseated_l; eauto.
+  - apply Hne. unfold run in Hp'. destruct (const_ptr_not_reseated_l pol Ha ops 0%nat s p pt Hp Hc) as (pt2 & H2 & (E & _)).
+    congruence.
+  - unfold run in Hb. rewrite (no_store_through_const_view_l pol Ha ops 0%nat s HI) in Hb. congruence.
 Qed.
 
 (* ------------------------------------------------------------------ every test is necessary *)
@@ -84,7 +94,8 @@ Lemma mech_holes_accept_l st : mech_chk st = false -> verdict_of mech (witness s
 Proof. destruct st; vm_compute; intros; try discriminate. Qed.
 Lemma mech_holes_list : mech_holes =
   [SWholeMemberConst; SDerefExprStore; SPtrMemberConst; SAddrSubAssign; SAddrSubDecl; SAddrArg; SPtrCopyAssign; SPtrCopyDecl;
-   SConstRefStore].
+   SConstRefStore; SRefLocalCRef; SRefParamViaParam; SRefStructFresh; SPtcParamStore; SPtrCopyArgParam;
+   SAliasParentIncDec; SAliasParentWhole; SAliasDeep].
 Proof. vm_compute. reflexivity. Qed.
 
 (* the nine tests added by the repairs c8a1652, a842ca6, 8c94aff, a242434, 38104c4, 29cf056 *)
@@ -156,4 +167,90 @@ Qed.
 Lemma mech_matrix_open_l kp : In kp open_cells -> exists c, scenario true (fst kp) (snd kp) = Some c /\ verdict_of mech c = VChanged.
 Proof.
   intros H. cbn in H. repeat (destruct H as [<-|H]; [eexists; split; [reflexivity|vm_compute; reflexivity]|]). destruct H.
+Qed.
+
+(* ------------------------------------------------------------------ derivation chains *)
+Lemma lists_upto_complete {A} (al : list A) : (forall a, In a al) -> forall n ls, ls <> [] -> (length ls <= n)%nat -> In ls (lists_upto al n).
+Proof.
+  intros Hal. induction n as [|n IH]; intros ls Hne Hl.
+  - destruct ls; [congruence|cbn in Hl; lia].
+  - destruct ls as [|a l]; [congruence|]. cbn [lists_upto]. apply in_or_app. destruct l as [|b l'].
+    + left. apply in_map_iff. exists a. auto.
+    + right. apply in_flat_map. exists (b :: l'). split; [apply IH; [discriminate|cbn in Hl |- *; lia]|].
+      apply in_map_iff. exists a. auto.
+Qed.
+Lemma ref_alpha_complete a : In a ref_alpha. Proof. destruct a as [[|] [|]]; cbn; tauto. Qed.
+Lemma ptr_alpha_complete a : In a ptr_alpha. Proof. destruct a as [[| |] [|]]; cbn; tauto. Qed.
+Lemma bool_complete (b : bool) : In b [false; true]. Proof. destruct b; cbn; tauto. Qed.
+
+Definition chain_ok (pol : policy) (c : state * list op) (v : verdict) : bool := inv_b (fst c) && verdict_eqb (verdict_of pol c) v.
+(* where the implementation's verdict differs from the property's, the test at which the property refuses is one it lacks *)
+Definition mech_dev_ok (c : state * list op) : bool :=
+  verdict_eqb (verdict_of mech c) (verdict_of spec c) ||
+  match snd (run spec (fst c) (snd c)) with RejectedAt _ st => negb (mech_chk st) | _ => false end.
+
+Definition ref_cell_ok (ls : list (bool * bool)) : bool :=
+  forallb (fun cst => forallb (fun sr : bool * bool => forallb (fun f =>
+     let c := ref_chain cst (fst sr) (snd sr) ls f in chain_ok spec c (chain_expect cst (map snd ls)) && mech_dev_ok c)
+     [FAssign; FCompound]) [(false, false); (true, false); (true, true)]) [false; true].
+Definition alias_cell_ok (ls : list bool) : bool :=
+  forallb (fun cst => forallb (fun f => let c := alias_chain cst ls f in chain_ok spec c (chain_expect cst ls) && mech_dev_ok c)
+     alias_finals) [false; true].
+Definition ptr_cell_ok (ls : list (amode * bool)) : bool :=
+  forallb (fun cst => forallb (fun r => forallb (fun f =>
+     let c := ptr_chain cst r ls f in chain_ok spec c (chain_expect cst (map snd ls)) && mech_dev_ok c)
+     (proot_forms r)) all_proots) [false; true].
+
+Lemma chain_sweep : forallb ref_cell_ok (lists_upto ref_alpha 3) = true /\ forallb alias_cell_ok (lists_upto [false; true] 4) = true /\
+                    forallb ptr_cell_ok (lists_upto ptr_alpha 3) = true.
+Proof. repeat split; vm_compute; reflexivity. Qed.
+
+Lemma chain_ok_sound pol c v : chain_ok pol c v = true -> Inv (fst c) /\ verdict_of pol c = v.
+Proof. unfold chain_ok. intros H. apply andb_true_iff in H as [H1 H2]. split; [apply inv_b_sound; exact H1|apply verdict_eqb_eq; exact H2]. Qed.
+Lemma mech_dev_sound c : mech_dev_ok c = true ->
+  verdict_of mech c = verdict_of spec c \/ exists i st, snd (run spec (fst c) (snd c)) = RejectedAt i st /\ mech_chk st = false.
+Proof.
+  unfold mech_dev_ok. intros H. apply orb_true_iff in H as [H|H]; [left; apply verdict_eqb_eq; exact H|right].
+  destruct (snd (run spec (fst c) (snd c))) as [|i st|i]; try discriminate. exists i, st. split; [reflexivity|].
+  destruct (mech_chk st); [discriminate|reflexivity].
+Qed.
+
+Definition chain_statement (c : state * list op) (v : verdict) : Prop :=
+  Inv (fst c) /\ verdict_of spec c = v /\
+  (verdict_of mech c = verdict_of spec c \/ exists i st, snd (run spec (fst c) (snd c)) = RejectedAt i st /\ mech_chk st = false).
+
+Lemma ref_chain_matrix_l cst strct rd ls f : ls <> [] -> (length ls <= 3)%nat -> f <> FIncDec ->
+  chain_statement (ref_chain cst strct rd ls f) (chain_expect cst (map snd ls)).
+Proof.
+  intros Hne Hl Hf. assert (F := proj1 chain_sweep). rewrite forallb_forall in F.
+  specialize (F ls (lists_upto_complete _ ref_alpha_complete 3 ls Hne Hl)). unfold ref_cell_ok in F.
+  rewrite forallb_forall in F. specialize (F cst (bool_complete cst)). rewrite forallb_forall in F.
+  assert (E : exists sr, In sr [(false, false); (true, false); (true, true)] /\
+                         ref_chain cst strct rd ls f = ref_chain cst (fst sr) (snd sr) ls f).
+  { destruct strct, rd; [exists (true, true)|exists (true, false)|exists (false, false)|exists (false, false)]; cbn; tauto. }
+  destruct E as (sr & Hin & ->). specialize (F sr Hin). rewrite forallb_forall in F.
+  assert (Hfin : In f [FAssign; FCompound]) by (destruct f; cbn; try tauto; congruence).
+  specialize (F f Hfin). cbn zeta in F. apply andb_true_iff in F as [F1 F2].
+  destruct (chain_ok_sound _ _ _ F1) as [I1 V1]. split; [exact I1|]. split; [exact V1|]. apply mech_dev_sound. exact F2.
+Qed.
+
+Lemma alias_chain_matrix_l cst ls f : ls <> [] -> (length ls <= 4)%nat -> In f alias_finals ->
+  chain_statement (alias_chain cst ls f) (chain_expect cst ls).
+Proof.
+  intros Hne Hl Hf. assert (F := proj1 (proj2 chain_sweep)). rewrite forallb_forall in F.
+  specialize (F ls (lists_upto_complete _ bool_complete 4 ls Hne Hl)). unfold alias_cell_ok in F.
+  rewrite forallb_forall in F. specialize (F cst (bool_complete cst)). rewrite forallb_forall in F.
+  specialize (F f Hf). cbn zeta in F. apply andb_true_iff in F as [F1 F2].
+  destruct (chain_ok_sound _ _ _ F1) as [I1 V1]. split; [exact I1|]. split; [exact V1|]. apply mech_dev_sound. exact F2.
+Qed.
+
+Lemma ptr_chain_matrix_l cst r ls f : ls <> [] -> (length ls <= 3)%nat -> In f (proot_forms r) ->
+  chain_statement (ptr_chain cst r ls f) (chain_expect cst (map snd ls)).
+Proof.
+  intros Hne Hl Hf. assert (F := proj2 (proj2 chain_sweep)). rewrite forallb_forall in F.
+  specialize (F ls (lists_upto_complete _ ptr_alpha_complete 3 ls Hne Hl)). unfold ptr_cell_ok in F.
+  rewrite forallb_forall in F. specialize (F cst (bool_complete cst)). rewrite forallb_forall in F.
+  assert (Hr : In r all_proots) by (destruct r; cbn; tauto). specialize (F r Hr). rewrite forallb_forall in F.
+  specialize (F f Hf). cbn zeta in F. apply andb_true_iff in F as [F1 F2].
+  destruct (chain_ok_sound _ _ _ F1) as [I1 V1]. split; [exact I1|]. split; [exact V1|]. apply mech_dev_sound. exact F2.
 Qed.
